@@ -174,8 +174,8 @@ Section Formula.
     bind (elements d) (mapM (fun g => bind (elements g) (mapM atom_of))).
 
   (* ---- the DNF as a list of alternatives, each a list of atoms, and its reading back ---- *)
-  Definition conj (c : list A) : formula := And (map Atom c).
-  Definition dnf (alts : list (list A)) : formula := Or (map conj alts).
+  Definition conjf (c : list A) : formula := And (map Atom c).
+  Definition dnf (alts : list (list A)) : formula := Or (map conjf alts).
 
   Definition eval_dnf (s : A -> bool) (alts : list (list A)) : bool :=
     existsb (forallb s) alts.
@@ -208,7 +208,7 @@ Arguments norm_and {A} rec els.
 Arguments normalize {A} group.
 Arguments atom_of {A} g.
 Arguments alts_of {A} d.
-Arguments conj {A} c.
+Arguments conjf {A} c.
 Arguments dnf {A} alts.
 Arguments eval_dnf {A} s alts.
 Arguments cross {A} xs ys.
